@@ -131,7 +131,7 @@ void Composite::dump(std::ostream &out) const {
     if (arrays.size() > 0) out << " ";
     for (size_t i = 0; i < arrays.size(); i++) {
         arrays[i]->dump(out);
-        if (i < vars.size() - 1) out << " ";
+        if (i < arrays.size() - 1) out << " ";
     }
 }
 
